@@ -186,6 +186,52 @@ def _target(mod, key):
     return mod, key
 
 
+BASE_SYMBOLS = {'kappa': ('kappa', 'LCDM.kappa'), 'fq': ('fq',), 'M': ('M',), 't_today': ('t_today', 't_today_EdS', 'LCDM.t_today_EdS'),
+                's': ('s',), 'q': ('q',), 'k': ('k',), 'm': ('m',), 'Om': ('Omega_m_today', 'LCDM.Omega_m_today'), 'Amp': ('Amp',), 'kwave': ('k',)}
+
+
+def constant_relations(modname):
+    """The identities are proved with module constants as symbols tied by the relations the harness states.  Here the module's
+    OWN numeric constants (computed at import) are compared with those relations: every overridden constant that is an
+    expression must evaluate, at the module's numeric base constants, to the module's numeric value (relative 1e-12).
+    -> list of (constant, module value, value under the stated relation)"""
+    import math
+    mod, over, pre = setup(modname)
+    env = {}
+    for symname, attrs in BASE_SYMBOLS.items():
+        for a_ in attrs:
+            try:
+                m_, at_ = _target(mod, a_)
+            except Exception:  # noqa
+                continue
+            if hasattr(m_, at_) and isinstance(getattr(m_, at_), (int, float, np.floating)):
+                env[symname] = float(getattr(m_, at_))
+                break
+    if modname == 'Szekeres':
+        env['kwave'] = float(mod.k)
+    bad = []
+    for key, val in over.items():
+        if isinstance(val, SymReal):
+            term = val.t
+        elif isinstance(val, F):
+            term = tm.const(val)
+        else:
+            continue
+        if term.op == 'v':
+            continue                                   # free symbol: any value is covered
+        m_, at_ = _target(mod, key)
+        have = getattr(m_, at_)
+        if not isinstance(have, (int, float, np.floating)):
+            continue
+        try:
+            want = float(tm.evaluate([term], env, exact=False)[0])
+        except KeyError:
+            continue
+        if not math.isclose(float(have), want, rel_tol=1e-12, abs_tol=1e-300):
+            bad.append((key, float(have), want))
+    return bad
+
+
 def build_module(modname, tier):
     mod, over, pre = setup(modname)
     saved = {k: getattr(*_target(mod, k)) for k in over}
@@ -463,6 +509,10 @@ def run_module(args):
         import traceback
         return dict(module=modname, error=traceback.format_exc()[-600:], obs=[], stats=solver.STATS.as_dict())
     t_build = time.time() - t0
+    try:
+        const_bad = constant_relations(modname)
+    except Exception as e:  # noqa
+        const_bad = [('constant_relations raised', 0.0, repr(e)[:120])]
     lemma_recs = []
     if modname == 'Szekeres':
         rw = generator_rewrite(modname, obs, pre)
@@ -545,7 +595,7 @@ def run_module(args):
             rec['model'] = {k: str(v) for k, v in r['model'].items() if v is not None}
         out.append(rec)
     return dict(module=modname, obs=out, build_s=round(t_build, 1), untranslated=untranslated, stats=solver.STATS.as_dict(), error=None, vacuity=vac,
-                hunt_only_unsettled=unsettled, lemmas=lemma_recs)
+                hunt_only_unsettled=unsettled, lemmas=lemma_recs, const_bad=const_bad)
 
 
 def float_replay(modname, name, model):
@@ -659,6 +709,25 @@ def main(report, tier, seed, workers, calibrate=False):
             report.harness_errors.append(f"{res['module']}: {res['error'][-300:]}")
             continue
         report.extra.setdefault('build_seconds', {})[res['module']] = res['build_s']
+        cb = res.get('const_bad', [])
+        report.record(f"{res['module']}: module-level numeric constants satisfy the relations the identities were proved under", 'holds' if not cb else 'sat',
+                      group='module-level constants (concrete)', kind='concrete', trivial=True)
+        if cb:
+            try:
+                import importlib as _il
+                from fractions import Fraction as _F
+                tt_ = '3/2'
+                if res['module'] in ('LCDM', 'Szekeres'):          # late times: Lambda matters
+                    tt_ = str(_F(float(_il.import_module('aurel.solutions.LCDM').t_today_EdS)).limit_denominator(1000))
+                rp = float_replay(res['module'], f"{res['module']}: Einstein[0,0]", {'t': tt_, 'x': '1/2', 'y': '-1/3', 'z': '3/4'})
+            except Exception as e:  # noqa
+                rp = dict(reproduces=False, error=repr(e)[:200])
+            if rp.get('reproduces'):
+                report.violation(f"{res['module']}: constants", f"{res['module']}: module constants {cb} differ from the relations under which its "
+                                 f"identities hold; with the module's own constants Einstein's equations fail: {rp}",
+                                 report.write_replay(f"{res['module']}_constants", dict(module=res['module'], constants=cb, replay=rp)))
+            else:
+                report.harness_errors.append(f"{res['module']}: module constants {cb} differ from the harness relations but the float replay shows no residual: {rp}")
         for lm in res.get('lemmas', []):
             report.record(lm['name'], lm['verdict'], lm['seconds'], sha=lm['sha'], group=f"{res['module']}: lemmas justifying the rewrite over generators")
         if res.get('hunt_only_unsettled'):
